@@ -60,21 +60,36 @@ pub fn run_scenario(id: &str, sc: &Value, fail_at: usize, mode: FaultMode) -> Ou
             let start = sc["start"].as_u64().unwrap_or(0) as usize;
             let declared = sc["declared"].as_bool().unwrap_or(false);
             let opts = build_options(&sc["opts"]).unwrap();
-            let pcm = pcm40();
+            // "frames": how many of the 40 PCM frames are written (a whole number of blocks or not); "tail": bytes of a torn PCM frame
+            // handed to the byte front ends after them (dropped by finalize - the finished file is that of the whole frames)
+            let frames = sc["frames"].as_u64().unwrap_or(40) as usize;
+            let tail = sc["tail"].as_u64().unwrap_or(0) as usize;
+            let pcm = pcm40()[..frames * 2].to_vec();
             let mut rw = FaultyRW::new(vec![0xEE; start], fail_at, mode, false, true);
             rw.pos = start as u64;
             let r = catch(|| -> Result<Vec<u8>, String> {
                 match fe {
-                    "byte-le" => {
-                        let bytes = samples_to_bytes(&pcm, 16, false);
-                        let mut w: FlacByteWriter<_, LittleEndian> =
-                            FlacByteWriter::new(&mut rw, opts, 44100, 16, 2, declared.then_some(bytes.len() as u64)).map_err(|e| e.to_string())?;
-                        w.write_all(&bytes[..50]).map_err(|e| e.to_string())?;
-                        w.write_all(&bytes[50..]).map_err(|e| e.to_string())?;
-                        if sc["flush"].as_bool().unwrap_or(false) {
-                            w.flush().map_err(|e| e.to_string())?;
+                    "byte-le" | "byte-be" => {
+                        let mut bytes = samples_to_bytes(&pcm, 16, fe == "byte-be");
+                        let whole = bytes.len();
+                        bytes.extend(std::iter::repeat_n(0x5A, tail));
+                        macro_rules! go {
+                            ($e:ty) => {{
+                                let mut w: FlacByteWriter<_, $e> =
+                                    FlacByteWriter::new(&mut rw, opts, 44100, 16, 2, declared.then_some(whole as u64)).map_err(|e| e.to_string())?;
+                                w.write_all(&bytes[..50]).map_err(|e| e.to_string())?;
+                                w.write_all(&bytes[50..]).map_err(|e| e.to_string())?;
+                                if sc["flush"].as_bool().unwrap_or(false) {
+                                    w.flush().map_err(|e| e.to_string())?;
+                                }
+                                w.finalize().map_err(|e| e.to_string())?;
+                            }};
                         }
-                        w.finalize().map_err(|e| e.to_string())?;
+                        if fe == "byte-be" {
+                            go!(flac_codec::byteorder::BigEndian)
+                        } else {
+                            go!(LittleEndian)
+                        }
                     }
                     "sample" => {
                         let mut w = FlacSampleWriter::new(&mut rw, opts, 44100, 16, 2, declared.then_some(pcm.len() as u64)).map_err(|e| e.to_string())?;
@@ -85,7 +100,7 @@ pub fn run_scenario(id: &str, sc: &Value, fail_at: usize, mode: FaultMode) -> Ou
                     _ => {
                         let l: Vec<i32> = pcm.iter().step_by(2).copied().collect();
                         let r: Vec<i32> = pcm.iter().skip(1).step_by(2).copied().collect();
-                        let mut w = FlacChannelWriter::new(&mut rw, opts, 44100, 16, 2, declared.then_some(40)).map_err(|e| e.to_string())?;
+                        let mut w = FlacChannelWriter::new(&mut rw, opts, 44100, 16, 2, declared.then_some(frames as u64)).map_err(|e| e.to_string())?;
                         w.write([&l[..17], &r[..17]]).map_err(|e| e.to_string())?;
                         w.write([&l[17..], &r[17..]]).map_err(|e| e.to_string())?;
                         w.finalize().map_err(|e| e.to_string())?;
